@@ -21,6 +21,10 @@ CLAIMED = {
          "Model checking of `Impl => R` on the escape model over the escape-relevant alphabets, plus trace validation of the real code: for every enumerated/random string and byte string TLC lexes the recorded literal with the engine's rules (single token, decoded value equals input) and, for literals embedded in query/schema statements, requires that no other token of the statement depends on the value (injection safety). SQLite renderings are additionally executed on the real engine.",
          "Trusted: the MySQL/PostgreSQL lexical models (no engine available), TLC, SQLite 3.40.1. NUL excluded on PostgreSQL/SQLite.",
          "§5 C03, Appendix C.1"),
+ "C04": ("Identifier quoting (Iden::prepare) transcribed in TLA+ and checked by TLC against the three engines' quoted-identifier lexical rules over all short names of a quote-relevant alphabet; the names are replayed into 69 identifier positions of real query and schema statements and validated token-by-token by TLC; SQLite alias read back from the real engine",
+         "Model checking of the quoting routine against the engine lexers (every name up to the tier's length over {a, \", `, ', \\, space, e-acute, ., ], [}), and trace validation of the real code: each recorded statement must lex to the same token sequence as the reference rendering, with a quoted-identifier token decoding to exactly the supplied name at the position(s) of the name. Positions written by separate code (index, constraint, FK names, PG enum cast) are explicit positions.",
+         "Trusted: MySQL/PostgreSQL identifier lexical rules as modelled; TLC. Empty names and NUL outside the domain.",
+         "§5 C04"),
 }
 NA = {
  "C20": "Type-level fact about Rust auto-traits decided only by rustc's trait solver; no state, transition or observable behaviour to model or trace (DESIGN.md §5 C20).",
